@@ -45,29 +45,30 @@ theorem HBlock.mem {c k : Nat} {p0 : PImg} (u : MemUpd) : HBlock c p0 k [memA u]
 
 theorem HBlock.nil {c k : Nat} {p0 : PImg} : HBlock c p0 k [] := ⟨rfl, by simp [ioSteps]⟩
 
-def flushSteps (pm : Meta) : List Step := [.pg (.hdr pm) 0, .pg .bitmap 1, .ps]
+def flushSteps (pm : Meta) (bm : Nat) : List Step := [.pg (.hdr pm) 0, .pg (.bitmap bm) 1, .ps]
 
-theorem ioSteps_flushA (pm : Meta) : ioSteps (flushA pm) = flushSteps pm := rfl
+theorem ioSteps_flushA (pm : Meta) (bm : Nat) : ioSteps (flushA pm bm) = flushSteps pm bm := rfl
 
-theorem hblock_flush {c k : Nat} {p0 : PImg} {pm : Meta} (h : OKhdr c p0 k pm) : HBlock c p0 k (flushA pm) where
+theorem hblock_flush {c k : Nat} {p0 : PImg} {pm : Meta} {bm : Nat} (h : OKhdr c p0 k pm) (hb : p0.bm ≤ bm) :
+    HBlock c p0 k (flushA pm bm) where
   nofail := rfl
   steps := by
     intro s hs
     simp [ioSteps_flushA, flushSteps] at hs
-    rcases hs with rfl | rfl | rfl <;> simp [HStep, h]
+    rcases hs with rfl | rfl | rfl <;> simp [HStep, h, hb]
 
-/-- the actions end with a flush of `pm` -/
-def EndsFlushed (acts : List Action) (pm : Meta) : Prop := ∃ pre, ioSteps acts = pre ++ flushSteps pm
+/-- the actions end with a flush of the meta page `pm` and the bitmap `bm` -/
+def EndsFlushed (acts : List Action) (pm : Meta) (bm : Nat) : Prop := ∃ pre, ioSteps acts = pre ++ flushSteps pm bm
 
-theorem endsFlushed_flush (pm : Meta) : EndsFlushed (flushA pm) pm := ⟨[], rfl⟩
+theorem endsFlushed_flush (pm : Meta) (bm : Nat) : EndsFlushed (flushA pm bm) pm bm := ⟨[], rfl⟩
 
-theorem endsFlushed_append {a b : List Action} {pm : Meta} (ha : failOf a = none) (hb : EndsFlushed b pm) :
-    EndsFlushed (a ++ b) pm := by
+theorem endsFlushed_append {a b : List Action} {pm : Meta} {bm : Nat} (ha : failOf a = none) (hb : EndsFlushed b pm bm) :
+    EndsFlushed (a ++ b) pm bm := by
   obtain ⟨pre, h⟩ := hb
   exact ⟨ioSteps a ++ pre, by rw [ioSteps_append_noFail _ _ ha, h, List.append_assoc]⟩
 
-theorem endsFlushed_append_mem {a : List Action} {pm : Meta} (u : MemUpd) (ha : EndsFlushed a pm) (hf : failOf a = none) :
-    EndsFlushed (a ++ [memA u]) pm := by
+theorem endsFlushed_append_mem {a : List Action} {pm : Meta} {bm : Nat} (u : MemUpd) (ha : EndsFlushed a pm bm)
+    (hf : failOf a = none) : EndsFlushed (a ++ [memA u]) pm bm := by
   obtain ⟨pre, h⟩ := ha
   exact ⟨pre, by rw [ioSteps_append_noFail _ _ hf, h]; simp [ioSteps]⟩
 
@@ -75,8 +76,8 @@ theorem applyEffs_append (a b : List PEff) (p : PImg) : applyEffs (a ++ b) p = a
   simp [applyEffs, List.foldl_append]
 
 /-- after a flush nothing is unsynced and the durable meta page is the one just written -/
-theorem steps_flushed (fs : FS) (S : List Step) (pm : Meta) (h : ∃ pre, S = pre ++ flushSteps pm) :
-    (fs.steps S).pj = [] ∧ (fs.steps S).pd.hdr = pm := by
+theorem steps_flushed (fs : FS) (S : List Step) (pm : Meta) (bm : Nat) (h : ∃ pre, S = pre ++ flushSteps pm bm) :
+    (fs.steps S).pj = [] ∧ (fs.steps S).pd.hdr = pm ∧ (fs.steps S).pd.bm = bm := by
   obtain ⟨pre, rfl⟩ := h
   rw [steps_append]
   generalize fs.steps pre = g
@@ -87,89 +88,127 @@ theorem steps_flushed (fs : FS) (S : List Step) (pm : Meta) (h : ∃ pre, S = pr
 theorem hblock_setLen {c k : Nat} {p0 : PImg} (n pid : Nat) : HBlock c p0 k [ioA (.pg (.setLen n) pid)] :=
   ⟨rfl, by simp [ioSteps, HStep]⟩
 
-theorem ensureA_spec {c k : Nat} {p0 : PImg} (ps : PS) (pid : Nat) (h : OKhdr c p0 k ps.pm) :
+theorem ensureA_bm (ps : PS) (pid : Nat) : ps.bm ≤ (ensureA ps pid).2.bm := by
+  unfold ensureA
+  show ps.bm ≤ (if pid < ps.bm then ps.bm else pid + 1)
+  split <;> omega
+
+theorem ensureA_spec {c k : Nat} {p0 : PImg} (ps : PS) (pid : Nat) (h : OKhdr c p0 k ps.pm) (hb : p0.bm ≤ ps.bm) :
     HBlock c p0 k (ensureA ps pid).1 ∧ SameKey ps.pm (ensureA ps pid).2.pm ∧
-      EndsFlushed (ensureA ps pid).1 (ensureA ps pid).2.pm := by
+      EndsFlushed (ensureA ps pid).1 (ensureA ps pid).2.pm (ensureA ps pid).2.bm := by
+  have hb' : p0.bm ≤ (if pid < ps.bm then ps.bm else pid + 1) := Nat.le_trans hb (by split <;> omega)
   unfold ensureA
   by_cases hg : ps.pm.nextPage ≤ pid
   · have hs : SameKey ps.pm { ps.pm with nextPage := pid + 1 } := ⟨rfl, rfl, rfl, rfl, by simp; omega⟩
     by_cases he : ps.len < pid + 1
     · simp only [hg, he, if_true]
-      exact ⟨(HBlock.mem _).append ((hblock_setLen _ _).append (hblock_flush (h.sameKey hs))), hs,
+      exact ⟨(((HBlock.mem _).append (HBlock.mem _)).append (hblock_setLen _ _)).append (hblock_flush (h.sameKey hs) hb'), hs,
         ⟨[.pg (.setLen (pid + 1)) (pid + 1)], rfl⟩⟩
     · simp only [hg, he, if_true, if_false]
-      exact ⟨(HBlock.mem _).append (HBlock.nil.append (hblock_flush (h.sameKey hs))), hs, ⟨[], rfl⟩⟩
+      exact ⟨(((HBlock.mem _).append (HBlock.mem _)).append HBlock.nil).append (hblock_flush (h.sameKey hs) hb'), hs, ⟨[], rfl⟩⟩
   · by_cases he : ps.len < pid + 1
     · simp only [hg, he, if_true, if_false]
-      exact ⟨HBlock.nil.append ((hblock_setLen _ _).append (hblock_flush h)), SameKey.refl _,
+      exact ⟨((HBlock.nil.append (HBlock.mem _)).append (hblock_setLen _ _)).append (hblock_flush h hb'), SameKey.refl _,
         ⟨[.pg (.setLen (pid + 1)) (pid + 1)], rfl⟩⟩
     · simp only [hg, he, if_false]
-      exact ⟨HBlock.nil.append (HBlock.nil.append (hblock_flush h)), SameKey.refl _, ⟨[], rfl⟩⟩
+      exact ⟨((HBlock.nil.append (HBlock.mem _)).append HBlock.nil).append (hblock_flush h hb'), SameKey.refl _, ⟨[], rfl⟩⟩
 
-theorem allocA_spec {c k : Nat} {p0 : PImg} (ps : PS) (h : OKhdr c p0 k ps.pm) :
-    HBlock c p0 k (allocA ps).1 ∧ SameKey ps.pm (allocA ps).2.1.pm ∧
-      EndsFlushed (allocA ps).1 (allocA ps).2.1.pm ∧ (allocA ps).2.2 = ps.pm.nextPage := by
+theorem allocA_pid (ps : PS) : (allocA ps).2.2 = min ps.bm ps.pm.nextPage := by
   unfold allocA
-  have hs : SameKey ps.pm { ps.pm with nextPage := ps.pm.nextPage + 1 } := ⟨rfl, rfl, rfl, rfl, by simp⟩
-  obtain ⟨hb, hk, he⟩ := ensureA_spec (c := c) (k := k) (p0 := p0)
-    { ps with pm := { ps.pm with nextPage := ps.pm.nextPage + 1 } } ps.pm.nextPage (h.sameKey hs)
-  refine ⟨?_, hs.trans hk, ?_, rfl⟩
-  · exact (HBlock.mem _).append hb
-  · have := endsFlushed_append (a := [memA (.setPm { ps.pm with nextPage := ps.pm.nextPage + 1 })]) rfl he
+  show (if ps.bm < ps.pm.nextPage then ps.bm else ps.pm.nextPage) = _
+  split <;> omega
+
+theorem allocA_bm (ps : PS) : ps.bm ≤ (allocA ps).2.1.bm := by
+  unfold allocA
+  exact ensureA_bm _ _
+
+theorem allocA_spec {c k : Nat} {p0 : PImg} (ps : PS) (h : OKhdr c p0 k ps.pm) (hb : p0.bm ≤ ps.bm) :
+    HBlock c p0 k (allocA ps).1 ∧ SameKey ps.pm (allocA ps).2.1.pm ∧
+      EndsFlushed (allocA ps).1 (allocA ps).2.1.pm (allocA ps).2.1.bm := by
+  unfold allocA
+  by_cases hh : ps.bm < ps.pm.nextPage
+  · simp only [hh, if_true]
+    obtain ⟨hbk, hk, he⟩ := ensureA_spec (c := c) (k := k) (p0 := p0) { ps with pm := ps.pm } ps.bm h hb
+    refine ⟨(HBlock.mem _).append hbk, hk, ?_⟩
+    have := endsFlushed_append (a := [memA (.setPm ps.pm)]) rfl he
+    simpa using this
+  · simp only [hh, if_false]
+    have hs : SameKey ps.pm { ps.pm with nextPage := ps.pm.nextPage + 1 } := ⟨rfl, rfl, rfl, rfl, by simp⟩
+    obtain ⟨hbk, hk, he⟩ := ensureA_spec (c := c) (k := k) (p0 := p0)
+      { ps with pm := { ps.pm with nextPage := ps.pm.nextPage + 1 } } ps.pm.nextPage (h.sameKey hs) hb
+    refine ⟨(HBlock.mem _).append hbk, hs.trans hk, ?_⟩
+    have := endsFlushed_append (a := [memA (.setPm { ps.pm with nextPage := ps.pm.nextPage + 1 })]) rfl he
     simpa using this
 
-/-- nothing is unsynced and the durable meta page equals the in-memory one -/
-def Synced (fs : FS) (pm : Meta) : Prop := fs.pj = [] ∧ fs.pd.hdr = pm
+/-- nothing is unsynced; the durable meta page and bitmap equal the in-memory ones -/
+def Synced (fs : FS) (ps : PS) : Prop := fs.pj = [] ∧ fs.pd.hdr = ps.pm ∧ fs.pd.bm = ps.bm
 
-/-- nothing that matters is unsynced and the durable meta page equals the in-memory one -/
-def SyncedI (fs : FS) (pm : Meta) : Prop := Inert fs.pj ∧ fs.pd.hdr = pm
+/-- nothing that matters is unsynced; the in-memory meta page and bitmap are those of the file or
+    ahead of them in the allocation frontier only (after a failed allocation) -/
+def SyncedI (fs : FS) (ps : PS) : Prop := Inert fs.pj ∧ SameKey fs.pd.hdr ps.pm ∧ fs.pd.bm ≤ ps.bm
 
-theorem Synced.toI {fs : FS} {pm : Meta} (h : Synced fs pm) : SyncedI fs pm :=
-  ⟨by rw [h.1]; exact inert_nil, h.2⟩
+theorem Synced.toI {fs : FS} {ps : PS} (h : Synced fs ps) : SyncedI fs ps :=
+  ⟨by rw [h.1]; exact inert_nil, by rw [h.2.1]; exact SameKey.refl _, by rw [h.2.2]; exact Nat.le_refl _⟩
 
-theorem synced_of_endsFlushed {fs : FS} {acts : List Action} {pm : Meta} (h : EndsFlushed acts pm) :
-    Synced (fs.steps (ioSteps acts)) pm := steps_flushed fs _ pm h
+theorem synced_of_endsFlushed {fs : FS} {acts : List Action} {ps : PS} (h : EndsFlushed acts ps.pm ps.bm) :
+    Synced (fs.steps (ioSteps acts)) ps := steps_flushed fs _ ps.pm ps.bm h
 
 theorem safeAlong_mono {P Q : FS → Prop} {fs : FS} {S : List Step} (h : SafeAlong P fs S)
     (hpq : ∀ fs, P fs → Q fs) : SafeAlong Q fs S := fun n => hpq _ (h n)
 
 theorem startA_spec {c k : Nat} {p0 : PImg} (ps : PS) (id : IdSt) (h : OKhdr c p0 k ps.pm)
-    (hz : id.start = 0 → ps.pm.i2eLen = 0) (hid : id.start = ps.pm.i2eStart) (hnp : 1 ≤ ps.pm.nextPage) :
+    (hz : id.start = 0 → ps.pm.i2eLen = 0) (hid : id.start = ps.pm.i2eStart) (hnp : 1 ≤ ps.pm.nextPage)
+    (hbm : p0.bm ≤ ps.bm) (h1 : 1 ≤ p0.bm) :
     HBlock c p0 k (startA ps id).1 ∧ OKhdr c p0 k (startA ps id).2.1.pm ∧
       (startA ps id).2.1.pm.i2eLen = ps.pm.i2eLen ∧ (startA ps id).2.1.pm.i2eStart = (startA ps id).2.2 ∧
       (startA ps id).2.2 ≠ 0 ∧ 1 ≤ (startA ps id).2.1.pm.nextPage ∧
-      (∀ fs, Synced fs ps.pm → Synced (fs.steps (ioSteps (startA ps id).1)) (startA ps id).2.1.pm) := by
+      (∀ fs, Synced fs ps → Synced (fs.steps (ioSteps (startA ps id).1)) (startA ps id).2.1) := by
   unfold startA
   by_cases hs : id.start = 0
   · simp only [hs, if_true]
-    obtain ⟨hb, hk, he, hp⟩ := allocA_spec (c := c) (k := k) (p0 := p0) ps h
+    obtain ⟨hb, hk, he⟩ := allocA_spec (c := c) (k := k) (p0 := p0) ps h hbm
+    have hbm' : p0.bm ≤ (allocA ps).2.1.bm := Nat.le_trans hbm (allocA_bm ps)
     have hlen0 : (allocA ps).2.1.pm.i2eLen = 0 := by rw [hk.len]; exact hz hs
     have hok : OKhdr c p0 k { (allocA ps).2.1.pm with i2eStart := (allocA ps).2.2 } := by
       have h1 := h.sameKey hk
       exact ⟨h1.init, h1.catRoot, fun _ => hlen0, h1.lo, h1.hi, h1.nextPage⟩
     refine ⟨?_, hok, ?_, ?_, ?_, ?_, ?_⟩
-    · exact ((hb.append (HBlock.mem _)).append (hblock_flush hok)).append (HBlock.mem _)
+    · exact ((hb.append (HBlock.mem _)).append (hblock_flush hok hbm')).append (HBlock.mem _)
     · show (allocA ps).2.1.pm.i2eLen = _
       exact hk.len
     · first | rfl | trivial
-    · rw [hp]; omega
+    · rw [allocA_pid]; omega
     · show 1 ≤ (allocA ps).2.1.pm.nextPage
       exact Nat.le_trans hnp hk.np
     · intro fs _
       apply synced_of_endsFlushed
       apply endsFlushed_append_mem
-      · exact endsFlushed_append ((hb.append (HBlock.mem _)).nofail) (endsFlushed_flush _)
-      · exact ((hb.append (HBlock.mem _)).append (hblock_flush hok)).nofail
+      · exact endsFlushed_append ((hb.append (HBlock.mem _)).nofail) (endsFlushed_flush _ _)
+      · exact ((hb.append (HBlock.mem _)).append (hblock_flush hok hbm')).nofail
   · simp only [hs, if_false]
     refine ⟨HBlock.nil, h, ?_, hid.symm, hs, hnp, ?_⟩
     · first | rfl | trivial
     · intro fs hsy
       simpa [ioSteps, FS.steps] using hsy
 
+theorem startA_bm (ps : PS) (id : IdSt) : ps.bm ≤ (startA ps id).2.1.bm := by
+  unfold startA
+  by_cases hs : id.start = 0
+  · simp only [hs, if_true]; exact allocA_bm ps
+  · simp only [hs, if_false]; exact Nat.le_refl _
+
+theorem nodeA_bm (cfg : Cfg) (ps : PS) (id : IdSt) (x : Nat) : ps.bm ≤ (nodeA cfg ps id x).2.1.bm := by
+  show ps.bm ≤ (ensureA (startA ps id).2.1 (startA ps id).2.2).2.bm
+  exact Nat.le_trans (startA_bm ps id) (ensureA_bm _ _)
+
+theorem nodesA_bm (cfg : Cfg) : ∀ (xs : List Nat) (ps : PS) (id : IdSt), ps.bm ≤ (nodesA cfg ps id xs).2.1.bm
+  | [], _, _ => Nat.le_refl _
+  | x :: xs, ps, id => Nat.le_trans (nodeA_bm cfg ps id x) (nodesA_bm cfg xs _ _)
+
 theorem ng_slot_succ {N : List Nat} {c k : Nat} {p0 p : PImg} (h : NG N c p0 k p) (x : Nat)
     (hx : x = getSlot N k) : NG N c p0 (k + 1) (applyEff (.slot k x) p) := by
   have hf := h.frame
-  refine ⟨⟨hf.segs, hf.trees, hf.cat, hf.idx, hf.init, hf.catRoot, hf.len, hf.nextPage⟩,
+  refine ⟨⟨hf.segs, hf.trees, hf.cat, hf.idx, hf.init, hf.catRoot, hf.len, hf.nextPage, hf.bm⟩,
     h.start, h.lo, Nat.le_succ_of_le h.hi, ?_⟩
   intro i hi
   show getSlot (setSlot p.i2e k x) i = _
@@ -181,20 +220,20 @@ theorem ng_slot_succ {N : List Nat} {c k : Nat} {p0 p : PImg} (h : NG N c p0 k p
     power-loss image with a node table that recovery can complete; at the end the node is counted. -/
 theorem nodeA_safe {cfg : Cfg} {N : List Nat} {c k : Nat} {p0 : PImg} (b0 : Booted p0)
     (hsync : cfg.syncSlot = true) (fs : FS) (ps : PS) (id : IdSt) (x : Nat)
-    (hB : AllImgs fs (NG N c p0 k)) (hS : SyncedI fs ps.pm) (hpm : OKhdr c p0 k ps.pm)
+    (hB : AllImgs fs (NG N c p0 k)) (hS : SyncedI fs ps) (hpm : OKhdr c p0 k ps.pm)
     (hlen : ps.pm.i2eLen = k) (hidl : id.len = k) (hids : id.start = ps.pm.i2eStart)
-    (hnp : 1 ≤ ps.pm.nextPage) (hk : k < N.length) (hx : x = getSlot N k) (hck : c ≤ k) :
+    (hnp : 1 ≤ ps.pm.nextPage) (hk : k < N.length) (hx : x = getSlot N k) (hck : c ≤ k) (hbm : p0.bm ≤ ps.bm) :
     failOf (nodeA cfg ps id x).1 = none ∧
     SafeAlong (fun fs => AllImgs fs (fun p => PagerOK N c p ∧ Frame p0 p)) fs (ioSteps (nodeA cfg ps id x).1) ∧
     AllImgs (fs.steps (ioSteps (nodeA cfg ps id x).1)) (NG N c p0 (k + 1)) ∧
-    Synced (fs.steps (ioSteps (nodeA cfg ps id x).1)) (nodeA cfg ps id x).2.1.pm ∧
+    Synced (fs.steps (ioSteps (nodeA cfg ps id x).1)) (nodeA cfg ps id x).2.1 ∧
     OKhdr c p0 (k + 1) (nodeA cfg ps id x).2.1.pm ∧
     (nodeA cfg ps id x).2.1.pm.i2eLen = k + 1 ∧ (nodeA cfg ps id x).2.2.len = k + 1 ∧
     (nodeA cfg ps id x).2.2.start = (nodeA cfg ps id x).2.1.pm.i2eStart ∧
     1 ≤ (nodeA cfg ps id x).2.1.pm.nextPage := by
   have hz : id.start = 0 → ps.pm.i2eLen = 0 := fun h0 => hpm.start (hids ▸ h0)
-  obtain ⟨hb0, ok0, len0, st0, ne0, np0, sy0⟩ := startA_spec (c := c) (k := k) (p0 := p0) ps id hpm hz hids hnp
-  obtain ⟨hb1, sk1, ef1⟩ := ensureA_spec (c := c) (k := k) (p0 := p0) (startA ps id).2.1 (startA ps id).2.2 ok0
+  obtain ⟨hb0, ok0, len0, st0, ne0, np0, sy0⟩ := startA_spec (c := c) (k := k) (p0 := p0) ps id hpm hz hids hnp hbm (by have := b0.bm; omega)
+  obtain ⟨hb1, sk1, ef1⟩ := ensureA_spec (c := c) (k := k) (p0 := p0) (startA ps id).2.1 (startA ps id).2.2 ok0 (Nat.le_trans hbm (startA_bm ps id))
   -- names
   let r0 := startA ps id
   let r1 := ensureA r0.2.1 r0.2.2
@@ -213,19 +252,20 @@ theorem nodeA_safe {cfg : Cfg} {N : List Nat} {c k : Nat} {p0 : PImg} (b0 : Boot
       omega
     · show k + 1 ≤ k + 1
       omega
+  have hbm1 : p0.bm ≤ r1.2.bm := Nat.le_trans hbm (Nat.le_trans (startA_bm ps id) (ensureA_bm _ _))
   have hok2 : OKhdr c p0 (k + 1) pm2 := hok1.sameKey ⟨rfl, rfl, rfl, rfl, Nat.le_refl _⟩
   have hA : HBlock c p0 k (r0.1 ++ r1.1) := hb0.append hb1
   -- the action list
   have hacts : (nodeA cfg ps id x).1 =
       (r0.1 ++ r1.1) ++ ([ioA (.pg (.slot k x) r0.2.2), ioA .ps] ++
-        (([memA .incIdLen, memA (.setPm pm1)] ++ flushA pm1) ++ (([memA (.setPm pm2)] ++ flushA pm2) ++ [memA (.pushExt x)]))) := by
+        (([memA .incIdLen, memA (.setPm pm1)] ++ flushA pm1 r1.2.bm) ++ (([memA (.setPm pm2)] ++ flushA pm2 r1.2.bm) ++ [memA (.pushExt x)]))) := by
     simp [nodeA, hsync, hidl, r0, r1, pm1, pm2]
-  have hF1 : HBlock c p0 (k + 1) ([memA .incIdLen, memA (.setPm pm1)] ++ flushA pm1) :=
-    (⟨rfl, by simp [ioSteps]⟩ : HBlock c p0 (k + 1) [memA .incIdLen, memA (.setPm pm1)]).append (hblock_flush hok1)
-  have hF2 : HBlock c p0 (k + 1) (([memA (.setPm pm2)] ++ flushA pm2) ++ [memA (.pushExt x)]) :=
-    ((HBlock.mem _).append (hblock_flush hok2)).append (HBlock.mem _)
+  have hF1 : HBlock c p0 (k + 1) ([memA .incIdLen, memA (.setPm pm1)] ++ flushA pm1 r1.2.bm) :=
+    (⟨rfl, by simp [ioSteps]⟩ : HBlock c p0 (k + 1) [memA .incIdLen, memA (.setPm pm1)]).append (hblock_flush hok1 hbm1)
+  have hF2 : HBlock c p0 (k + 1) (([memA (.setPm pm2)] ++ flushA pm2 r1.2.bm) ++ [memA (.pushExt x)]) :=
+    ((HBlock.mem _).append (hblock_flush hok2 hbm1)).append (HBlock.mem _)
   have hsteps : ioSteps (nodeA cfg ps id x).1 =
-      ioSteps (r0.1 ++ r1.1) ++ ([.pg (.slot k x) r0.2.2, .ps] ++ (flushSteps pm1 ++ flushSteps pm2)) := by
+      ioSteps (r0.1 ++ r1.1) ++ ([.pg (.slot k x) r0.2.2, .ps] ++ (flushSteps pm1 r1.2.bm ++ flushSteps pm2 r1.2.bm)) := by
     rw [hacts, ioSteps_append_noFail _ _ hA.nofail]
     simp [ioSteps, flushA, flushSteps]
   -- stage A: harmless steps for class k
@@ -241,16 +281,16 @@ theorem nodeA_safe {cfg : Cfg} {N : List Nat} {c k : Nat} {p0 : PImg} (b0 : Boot
     exact ng_slot_succ (allImgs_pv fsA _ hBA) x hx
   generalize hfsC : (fsA.step (.pg (.slot k x) r0.2.2)).step .ps = fsC at hBC
   -- two flushes for class k+1
-  have sD := harmless_block (N := N) (flushSteps pm1 ++ flushSteps pm2) fsC hBC (by
+  have sD := harmless_block (N := N) (flushSteps pm1 r1.2.bm ++ flushSteps pm2 r1.2.bm) fsC hBC (by
     intro s hs
     rcases List.mem_append.mp hs with h | h
-    · exact (hblock_flush hok1).steps s (by simpa [ioSteps_flushA] using h)
-    · exact (hblock_flush hok2).steps s (by simpa [ioSteps_flushA] using h))
+    · exact (hblock_flush hok1 hbm1).steps s (by simpa [ioSteps_flushA] using h)
+    · exact (hblock_flush hok2 hbm1).steps s (by simpa [ioSteps_flushA] using h))
   have toOK : ∀ kk, kk ≤ N.length → ∀ g : FS, AllImgs g (NG N c p0 kk) → AllImgs g (fun p => PagerOK N c p ∧ Frame p0 p) :=
     fun kk hkk g hg => allImgs_mono g _ _ hg (fun p hp => ⟨hp.pagerOK b0 hkk, hp.frame⟩)
-  have hfinal : fs.steps (ioSteps (nodeA cfg ps id x).1) = fsC.steps (flushSteps pm1 ++ flushSteps pm2) := by
+  have hfinal : fs.steps (ioSteps (nodeA cfg ps id x).1) = fsC.steps (flushSteps pm1 r1.2.bm ++ flushSteps pm2 r1.2.bm) := by
     rw [hsteps, steps_append, hfsA]
-    show (fsA.steps ([Step.pg (.slot k x) r0.2.2, Step.ps] ++ (flushSteps pm1 ++ flushSteps pm2))) = _
+    show (fsA.steps ([Step.pg (.slot k x) r0.2.2, Step.ps] ++ (flushSteps pm1 r1.2.bm ++ flushSteps pm2 r1.2.bm))) = _
     rw [steps_append]
     simp only [FS.steps, List.foldl]
     rw [← hfsC]
@@ -263,14 +303,16 @@ theorem nodeA_safe {cfg : Cfg} {N : List Nat} {c k : Nat} {p0 : PImg} (b0 : Boot
     apply safeAlong_append (safeAlong_mono sA (toOK k (by omega)))
     rw [hfsA]
     show SafeAlong (fun fs => AllImgs fs (fun p => PagerOK N c p ∧ Frame p0 p)) fsA
-      (Step.pg (.slot k x) r0.2.2 :: Step.ps :: (flushSteps pm1 ++ flushSteps pm2))
+      (Step.pg (.slot k x) r0.2.2 :: Step.ps :: (flushSteps pm1 r1.2.bm ++ flushSteps pm2 r1.2.bm))
     refine safeAlong_cons (P := fun fs => AllImgs fs (fun p => PagerOK N c p ∧ Frame p0 p)) (toOK k (by omega) _ hBA) ?_
     refine safeAlong_cons (P := fun fs => AllImgs fs (fun p => PagerOK N c p ∧ Frame p0 p)) (toOK k (by omega) _ hBB) ?_
     rw [hfsC]
     exact safeAlong_mono sD (toOK (k + 1) (by omega))
   · rw [hfinal]; exact safeAlong_last sD
   · rw [hfinal]
-    exact steps_flushed fsC _ pm2 ⟨flushSteps pm1, rfl⟩
+    have hf := steps_flushed fsC _ pm2 r1.2.bm ⟨flushSteps pm1 r1.2.bm, rfl⟩
+    have hresb : (nodeA cfg ps id x).2.1.bm = r1.2.bm := rfl
+    exact ⟨hf.1, by rw [hres]; exact hf.2.1, by rw [hresb]; exact hf.2.2⟩
   · simp [nodeA, hidl]
   · show r0.2.2 = pm2.i2eStart
     show r0.2.2 = r1.2.pm.i2eStart
@@ -293,12 +335,12 @@ theorem nodesA_safe {cfg : Cfg} {N : List Nat} {c : Nat} {p0 : PImg} (b0 : Boote
     (hsync : cfg.syncSlot = true) :
     ∀ (xs : List Nat) (k : Nat) (fs : FS) (ps : PS) (id : IdSt) (rest : List Nat),
       N.drop k = xs ++ rest →
-      AllImgs fs (NG N c p0 k) → SyncedI fs ps.pm → OKhdr c p0 k ps.pm →
-      ps.pm.i2eLen = k → id.len = k → id.start = ps.pm.i2eStart → 1 ≤ ps.pm.nextPage → c ≤ k → k ≤ N.length →
+      AllImgs fs (NG N c p0 k) → SyncedI fs ps → OKhdr c p0 k ps.pm →
+      ps.pm.i2eLen = k → id.len = k → id.start = ps.pm.i2eStart → 1 ≤ ps.pm.nextPage → c ≤ k → k ≤ N.length → p0.bm ≤ ps.bm →
       failOf (nodesA cfg ps id xs).1 = none ∧
       SafeAlong (fun fs => AllImgs fs (fun p => PagerOK N c p ∧ Frame p0 p)) fs (ioSteps (nodesA cfg ps id xs).1) ∧
       AllImgs (fs.steps (ioSteps (nodesA cfg ps id xs).1)) (NG N c p0 (k + xs.length)) ∧
-      SyncedI (fs.steps (ioSteps (nodesA cfg ps id xs).1)) (nodesA cfg ps id xs).2.1.pm ∧
+      SyncedI (fs.steps (ioSteps (nodesA cfg ps id xs).1)) (nodesA cfg ps id xs).2.1 ∧
       OKhdr c p0 (k + xs.length) (nodesA cfg ps id xs).2.1.pm ∧
       (nodesA cfg ps id xs).2.1.pm.i2eLen = k + xs.length ∧ (nodesA cfg ps id xs).2.2.len = k + xs.length ∧
       (nodesA cfg ps id xs).2.2.start = (nodesA cfg ps id xs).2.1.pm.i2eStart ∧
@@ -306,20 +348,20 @@ theorem nodesA_safe {cfg : Cfg} {N : List Nat} {c : Nat} {p0 : PImg} (b0 : Boote
   intro xs
   induction xs with
   | nil =>
-    intro k fs ps id rest _ hB hS hpm hlen hidl hids hnp _ hkN
+    intro k fs ps id rest _ hB hS hpm hlen hidl hids hnp _ hkN _
     refine ⟨rfl, ?_, by simpa [nodesA, ioSteps, FS.steps] using hB, by simpa [nodesA, ioSteps, FS.steps] using hS,
       by simpa [nodesA] using hpm, by simpa [nodesA] using hlen, by simpa [nodesA] using hidl,
       by simpa [nodesA] using hids, by simpa [nodesA] using hnp⟩
     apply safeAlong_nil
     exact allImgs_mono fs _ _ hB (fun p hp => ⟨hp.pagerOK b0 hkN, hp.frame⟩)
   | cons x xs ih =>
-    intro k fs ps id rest hdrop hB hS hpm hlen hidl hids hnp hck hkN
+    intro k fs ps id rest hdrop hB hS hpm hlen hidl hids hnp hck hkN hbm
     obtain ⟨hx, hk, hdrop'⟩ := getSlot_of_drop N k x (xs ++ rest) (by simpa using hdrop)
     obtain ⟨nf, sa, hB1, hS1, ok1, len1, idl1, ids1, np1⟩ :=
-      nodeA_safe b0 hsync fs ps id x hB hS hpm hlen hidl hids hnp hk hx.symm hck
+      nodeA_safe b0 hsync fs ps id x hB hS hpm hlen hidl hids hnp hk hx.symm hck hbm
     obtain ⟨nf2, sa2, hB2, hS2, ok2, len2, idl2, ids2, np2⟩ :=
       ih (k + 1) (fs.steps (ioSteps (nodeA cfg ps id x).1)) (nodeA cfg ps id x).2.1 (nodeA cfg ps id x).2.2 rest
-        hdrop' hB1 hS1.toI ok1 len1 idl1 ids1 np1 (by omega) (by omega)
+        hdrop' hB1 hS1.toI ok1 len1 idl1 ids1 np1 (by omega) (by omega) (Nat.le_trans hbm (nodeA_bm cfg ps id x))
     have hacts : (nodesA cfg ps id (x :: xs)).1 =
         (nodeA cfg ps id x).1 ++ (nodesA cfg (nodeA cfg ps id x).2.1 (nodeA cfg ps id x).2.2 xs).1 := rfl
     have hres : (nodesA cfg ps id (x :: xs)).2 = (nodesA cfg (nodeA cfg ps id x).2.1 (nodeA cfg ps id x).2.2 xs).2 := rfl
@@ -335,7 +377,13 @@ def IdUpd : MemUpd → Prop
   | .setIdStart _ => True
   | .incIdLen => True
   | .pushExt _ => True
+  | .setBm _ => True
   | _ => False
+
+def lastBm : List MemUpd → Nat → Nat
+  | [], d => d
+  | .setBm b :: l, _ => lastBm l b
+  | _ :: l, d => lastBm l d
 
 def lastPm : List MemUpd → Meta → Meta
   | [], d => d
@@ -359,15 +407,20 @@ def pushed : List MemUpd → List Nat
 
 theorem foldl_idUpd (l : List MemUpd) (h : ∀ u ∈ l, IdUpd u) (m : Mem) :
     l.foldl applyUpd m =
-      { m with pm := lastPm l m.pm, idStart := lastStart l m.idStart,
+      { m with pm := lastPm l m.pm, bm := lastBm l m.bm, idStart := lastStart l m.idStart,
                idLen := m.idLen + countInc l, exts := m.exts ++ pushed l } := by
   induction l generalizing m with
-  | nil => simp [lastPm, lastStart, countInc, pushed]
+  | nil => simp [lastPm, lastBm, lastStart, countInc, pushed]
   | cons u l ih =>
     have hu := h u (by simp)
     have hl : ∀ u ∈ l, IdUpd u := fun u hu => h u (by simp [hu])
     cases u <;> simp only [IdUpd] at hu <;>
-      simp [List.foldl, ih hl, applyUpd, lastPm, lastStart, countInc, pushed] <;> omega
+      simp [List.foldl, ih hl, applyUpd, lastPm, lastBm, lastStart, countInc, pushed] <;> omega
+
+theorem lastBm_append (a b : List MemUpd) (d : Nat) : lastBm (a ++ b) d = lastBm b (lastBm a d) := by
+  induction a generalizing d with
+  | nil => rfl
+  | cons u a ih => cases u <;> simp [lastBm, ih]
 
 theorem lastPm_append (a b : List MemUpd) (d : Meta) : lastPm (a ++ b) d = lastPm b (lastPm a d) := by
   induction a generalizing d with
@@ -389,24 +442,25 @@ theorem pushed_append (a b : List MemUpd) : pushed (a ++ b) = pushed a ++ pushed
   | nil => rfl
   | cons u a ih => cases u <;> simp [pushed, ih]
 
-/-- lists of meta updates only -/
-def OnlySetPm (l : List MemUpd) : Prop := ∀ u ∈ l, ∃ pm, u = MemUpd.setPm pm
+/-- lists of pager-memory updates only (meta page, bitmap) -/
+def OnlySetPm (l : List MemUpd) : Prop := ∀ u ∈ l, (∃ pm, u = MemUpd.setPm pm) ∨ (∃ b, u = MemUpd.setBm b)
 
 theorem OnlySetPm.facts {l : List MemUpd} (h : OnlySetPm l) :
     (∀ u ∈ l, IdUpd u) ∧ (∀ d, lastStart l d = d) ∧ countInc l = 0 ∧ pushed l = [] := by
   induction l with
   | nil => simp [lastStart, countInc, pushed]
   | cons u l ih =>
-    obtain ⟨pm, rfl⟩ := h u (by simp)
     obtain ⟨h1, h2, h3, h4⟩ := ih (fun u hu => h u (by simp [hu]))
-    refine ⟨?_, ?_, ?_, ?_⟩
-    · intro u hu
-      rcases List.mem_cons.mp hu with rfl | hu
-      · trivial
-      · exact h1 u hu
-    · intro d; simp [lastStart, h2]
-    · simp [countInc, h3]
-    · simp [pushed, h4]
+    rcases h u (by simp) with ⟨pm, rfl⟩ | ⟨b, rfl⟩
+    all_goals
+      refine ⟨?_, ?_, ?_, ?_⟩
+      · intro u hu
+        rcases List.mem_cons.mp hu with rfl | hu
+        · trivial
+        · exact h1 u hu
+      · intro d; simp [lastStart, h2]
+      · simp [countInc, h3]
+      · simp [pushed, h4]
 
 theorem onlySetPm_ensure (ps : PS) (pid : Nat) : OnlySetPm (memUpds (ensureA ps pid).1) := by
   unfold ensureA
@@ -418,30 +472,42 @@ theorem onlySetPm_alloc (ps : PS) : OnlySetPm (memUpds (allocA ps).1) := by
   intro u hu
   simp only [memUpds, List.mem_cons] at hu
   rcases hu with rfl | hu
-  · exact ⟨_, rfl⟩
+  · exact Or.inl ⟨_, rfl⟩
   · exact onlySetPm_ensure _ _ u hu
 
-/-- the in-memory meta after `ensure` / `alloc` is the one they return -/
+/-- the in-memory meta / bitmap after `ensure` / `alloc` are the ones they return -/
 theorem lastPm_ensure (ps : PS) (pid : Nat) : lastPm (memUpds (ensureA ps pid).1) ps.pm = (ensureA ps pid).2.pm := by
   unfold ensureA
   by_cases hg : ps.pm.nextPage ≤ pid <;> by_cases he : ps.len < pid + 1 <;>
     simp [hg, he, memUpds, flushA, lastPm]
+
+theorem lastBm_ensure (ps : PS) (pid : Nat) (d : Nat) : lastBm (memUpds (ensureA ps pid).1) d = (ensureA ps pid).2.bm := by
+  unfold ensureA
+  by_cases hg : ps.pm.nextPage ≤ pid <;> by_cases he : ps.len < pid + 1 <;>
+    simp [hg, he, memUpds, flushA, lastBm]
 
 theorem lastPm_alloc (ps : PS) (d : Meta) : lastPm (memUpds (allocA ps).1) d = (allocA ps).2.1.pm := by
   unfold allocA
   simp only [memUpds, lastPm]
   exact lastPm_ensure _ _
 
-structure MemFacts (l : List MemUpd) (pm0 pm' : Meta) (st0 st' : Nat) (n : Nat) (xs : List Nat) : Prop where
+theorem lastBm_alloc (ps : PS) (d : Nat) : lastBm (memUpds (allocA ps).1) d = (allocA ps).2.1.bm := by
+  unfold allocA
+  simp only [memUpds, lastBm]
+  exact lastBm_ensure _ _ _
+
+structure MemFacts (l : List MemUpd) (pm0 pm' : Meta) (st0 st' : Nat) (n : Nat) (xs : List Nat) (b0 b' : Nat) : Prop where
   idupd : ∀ u ∈ l, IdUpd u
   pm : lastPm l pm0 = pm'
   start : lastStart l st0 = st'
   inc : countInc l = n
   push : pushed l = xs
+  bm : lastBm l b0 = b'
 
-theorem MemFacts.append {a b : List MemUpd} {pm0 pm1 pm2 : Meta} {s0 s1 s2 n1 n2 : Nat} {x1 x2 : List Nat}
-    (ha : MemFacts a pm0 pm1 s0 s1 n1 x1) (hb : MemFacts b pm1 pm2 s1 s2 n2 x2) :
-    MemFacts (a ++ b) pm0 pm2 s0 s2 (n1 + n2) (x1 ++ x2) where
+theorem MemFacts.append {a b : List MemUpd} {pm0 pm1 pm2 : Meta} {s0 s1 s2 n1 n2 : Nat} {x1 x2 : List Nat} {b0 b1 b2 : Nat}
+    (ha : MemFacts a pm0 pm1 s0 s1 n1 x1 b0 b1) (hb : MemFacts b pm1 pm2 s1 s2 n2 x2 b1 b2) :
+    MemFacts (a ++ b) pm0 pm2 s0 s2 (n1 + n2) (x1 ++ x2) b0 b2 where
+  bm := by rw [lastBm_append, ha.bm, hb.bm]
   idupd := by
     intro u hu
     rcases List.mem_append.mp hu with h | h
@@ -452,15 +518,15 @@ theorem MemFacts.append {a b : List MemUpd} {pm0 pm1 pm2 : Meta} {s0 s1 s2 n1 n2
   inc := by rw [countInc_append, ha.inc, hb.inc]
   push := by rw [pushed_append, ha.push, hb.push]
 
-theorem memFacts_startA {c k : Nat} {p0 : PImg} (ps : PS) (id : IdSt) (hpm : OKhdr c p0 k ps.pm) :
-    MemFacts (memUpds (startA ps id).1) ps.pm (startA ps id).2.1.pm id.start (startA ps id).2.2 0 [] := by
+theorem memFacts_startA {c k : Nat} {p0 : PImg} (ps : PS) (id : IdSt) (hpm : OKhdr c p0 k ps.pm) (hbm : p0.bm ≤ ps.bm) :
+    MemFacts (memUpds (startA ps id).1) ps.pm (startA ps id).2.1.pm id.start (startA ps id).2.2 0 [] ps.bm (startA ps id).2.1.bm := by
   unfold startA
   by_cases hs : id.start = 0
   · simp only [hs, if_true]
-    obtain ⟨hba, _, _, _⟩ := allocA_spec (c := c) (k := k) (p0 := p0) ps hpm
+    obtain ⟨hba, _, _⟩ := allocA_spec (c := c) (k := k) (p0 := p0) ps hpm hbm
     obtain ⟨f1, f2, f3, f4⟩ := (onlySetPm_alloc ps).facts
     have hmu : memUpds ((allocA ps).1 ++ [memA (.setPm { (allocA ps).2.1.pm with i2eStart := (allocA ps).2.2 })]
-        ++ flushA { (allocA ps).2.1.pm with i2eStart := (allocA ps).2.2 } ++ [memA (.setIdStart (allocA ps).2.2)]) =
+        ++ flushA { (allocA ps).2.1.pm with i2eStart := (allocA ps).2.2 } (allocA ps).2.1.bm ++ [memA (.setIdStart (allocA ps).2.2)]) =
         memUpds (allocA ps).1 ++ [.setPm { (allocA ps).2.1.pm with i2eStart := (allocA ps).2.2 }, .setIdStart (allocA ps).2.2] := by
       rw [memUpds_append_noFail, memUpds_append_noFail, memUpds_append_noFail]
       · simp [memUpds, flushA]
@@ -468,7 +534,7 @@ theorem memFacts_startA {c k : Nat} {p0 : PImg} (ps : PS) (id : IdSt) (hpm : OKh
       · exact (hba.append (HBlock.mem _)).nofail
       · rw [failOf_append, (hba.append (HBlock.mem _)).nofail]; rfl
     rw [hmu]
-    refine ⟨?_, ?_, ?_, ?_, ?_⟩
+    refine ⟨?_, ?_, ?_, ?_, ?_, ?_⟩
     · intro u hu
       rcases List.mem_append.mp hu with h | h
       · exact f1 u h
@@ -477,33 +543,37 @@ theorem memFacts_startA {c k : Nat} {p0 : PImg} (ps : PS) (id : IdSt) (hpm : OKh
     · rw [lastStart_append, f2]; simp [lastStart]
     · rw [countInc_append, f3]; simp [countInc]
     · rw [pushed_append, f4]; simp [pushed]
+    · rw [lastBm_append, lastBm_alloc]; simp [lastBm]
   · simp only [hs, if_false]
-    exact ⟨by simp [memUpds], rfl, rfl, rfl, rfl⟩
+    exact ⟨by simp [memUpds], rfl, rfl, rfl, rfl, rfl⟩
 
 theorem memFacts_nodeA {cfg : Cfg} {c k : Nat} {p0 : PImg} (ps : PS) (id : IdSt) (x : Nat)
-    (hpm : OKhdr c p0 k ps.pm) (hids : id.start = ps.pm.i2eStart) (hnp : 1 ≤ ps.pm.nextPage) :
+    (hpm : OKhdr c p0 k ps.pm) (hids : id.start = ps.pm.i2eStart) (hnp : 1 ≤ ps.pm.nextPage) (hbm : p0.bm ≤ ps.bm)
+    (h1 : 1 ≤ p0.bm) :
     MemFacts (memUpds (nodeA cfg ps id x).1) ps.pm (nodeA cfg ps id x).2.1.pm id.start
-      (nodeA cfg ps id x).2.2.start 1 [x] := by
+      (nodeA cfg ps id x).2.2.start 1 [x] ps.bm (nodeA cfg ps id x).2.1.bm := by
   have hz : id.start = 0 → ps.pm.i2eLen = 0 := fun h0 => hpm.start (hids ▸ h0)
-  obtain ⟨hb0, ok0, _, _, _, _, _⟩ := startA_spec (c := c) (k := k) (p0 := p0) ps id hpm hz hids hnp
-  obtain ⟨hb1, _, _⟩ := ensureA_spec (c := c) (k := k) (p0 := p0) (startA ps id).2.1 (startA ps id).2.2 ok0
-  have h0 := memFacts_startA (c := c) (k := k) (p0 := p0) ps id hpm
+  obtain ⟨hb0, ok0, _, _, _, _, _⟩ := startA_spec (c := c) (k := k) (p0 := p0) ps id hpm hz hids hnp hbm h1
+  obtain ⟨hb1, _, _⟩ := ensureA_spec (c := c) (k := k) (p0 := p0) (startA ps id).2.1 (startA ps id).2.2 ok0 (Nat.le_trans hbm (startA_bm ps id))
+  have h0 := memFacts_startA (c := c) (k := k) (p0 := p0) ps id hpm hbm
   obtain ⟨f1, f2, f3, f4⟩ := (onlySetPm_ensure (startA ps id).2.1 (startA ps id).2.2).facts
   have h1 : MemFacts (memUpds (ensureA (startA ps id).2.1 (startA ps id).2.2).1) (startA ps id).2.1.pm
-      (ensureA (startA ps id).2.1 (startA ps id).2.2).2.pm (startA ps id).2.2 (startA ps id).2.2 0 [] :=
-    ⟨f1, lastPm_ensure _ _, f2 _, f3, f4⟩
+      (ensureA (startA ps id).2.1 (startA ps id).2.2).2.pm (startA ps id).2.2 (startA ps id).2.2 0 []
+      (startA ps id).2.1.bm (ensureA (startA ps id).2.1 (startA ps id).2.2).2.bm :=
+    ⟨f1, lastPm_ensure _ _, f2 _, f3, f4, lastBm_ensure _ _ _⟩
   let pm1 : Meta := { (ensureA (startA ps id).2.1 (startA ps id).2.2).2.pm with i2eLen := id.len + 1 }
   let pm2 : Meta := { pm1 with nextInt := id.len + 1 }
   have h2 : MemFacts [MemUpd.incIdLen, .setPm pm1, .setPm pm2, .pushExt x]
-      (ensureA (startA ps id).2.1 (startA ps id).2.2).2.pm pm2 (startA ps id).2.2 (startA ps id).2.2 1 [x] :=
-    ⟨by intro u hu; simp at hu; rcases hu with rfl | rfl | rfl | rfl <;> trivial, rfl, rfl, rfl, rfl⟩
+      (ensureA (startA ps id).2.1 (startA ps id).2.2).2.pm pm2 (startA ps id).2.2 (startA ps id).2.2 1 [x]
+      (ensureA (startA ps id).2.1 (startA ps id).2.2).2.bm (ensureA (startA ps id).2.1 (startA ps id).2.2).2.bm :=
+    ⟨by intro u hu; simp at hu; rcases hu with rfl | rfl | rfl | rfl <;> trivial, rfl, rfl, rfl, rfl, rfl⟩
   have hmu : memUpds (nodeA cfg ps id x).1 =
       (memUpds (startA ps id).1 ++ memUpds (ensureA (startA ps id).2.1 (startA ps id).2.2).1) ++
         [MemUpd.incIdLen, .setPm pm1, .setPm pm2, .pushExt x] := by
     have hA : HBlock c p0 k ((startA ps id).1 ++ (ensureA (startA ps id).2.1 (startA ps id).2.2).1) := hb0.append hb1
     have : (nodeA cfg ps id x).1 = ((startA ps id).1 ++ (ensureA (startA ps id).2.1 (startA ps id).2.2).1) ++
         ([ioA (.pg (.slot id.len x) (startA ps id).2.2)] ++ (if cfg.syncSlot then [ioA .ps] else []) ++
-          [memA .incIdLen, memA (.setPm pm1)] ++ flushA pm1 ++ [memA (.setPm pm2)] ++ flushA pm2 ++ [memA (.pushExt x)]) := by
+          [memA .incIdLen, memA (.setPm pm1)] ++ flushA pm1 (ensureA (startA ps id).2.1 (startA ps id).2.2).2.bm ++ [memA (.setPm pm2)] ++ flushA pm2 (ensureA (startA ps id).2.1 (startA ps id).2.2).2.bm ++ [memA (.pushExt x)]) := by
       simp [nodeA, pm1, pm2]
     rw [this, memUpds_append_noFail _ _ hA.nofail, memUpds_append_noFail _ _ hb0.nofail]
     congr 1
@@ -516,21 +586,21 @@ theorem memFacts_nodesA {cfg : Cfg} {N : List Nat} {c : Nat} {p0 : PImg} (b0 : B
     (hsync : cfg.syncSlot = true) :
     ∀ (xs : List Nat) (k : Nat) (fs : FS) (ps : PS) (id : IdSt) (rest : List Nat),
       N.drop k = xs ++ rest →
-      AllImgs fs (NG N c p0 k) → SyncedI fs ps.pm → OKhdr c p0 k ps.pm →
-      ps.pm.i2eLen = k → id.len = k → id.start = ps.pm.i2eStart → 1 ≤ ps.pm.nextPage → c ≤ k → k ≤ N.length →
+      AllImgs fs (NG N c p0 k) → SyncedI fs ps → OKhdr c p0 k ps.pm →
+      ps.pm.i2eLen = k → id.len = k → id.start = ps.pm.i2eStart → 1 ≤ ps.pm.nextPage → c ≤ k → k ≤ N.length → p0.bm ≤ ps.bm →
       MemFacts (memUpds (nodesA cfg ps id xs).1) ps.pm (nodesA cfg ps id xs).2.1.pm id.start
-        (nodesA cfg ps id xs).2.2.start xs.length xs := by
+        (nodesA cfg ps id xs).2.2.start xs.length xs ps.bm (nodesA cfg ps id xs).2.1.bm := by
   intro xs
   induction xs with
-  | nil => intro k fs ps id rest _ _ _ _ _ _ _ _ _ _; exact ⟨by simp [nodesA, memUpds], rfl, rfl, rfl, rfl⟩
+  | nil => intro k fs ps id rest _ _ _ _ _ _ _ _ _ _ _; exact ⟨by simp [nodesA, memUpds], rfl, rfl, rfl, rfl, rfl⟩
   | cons x xs ih =>
-    intro k fs ps id rest hdrop hB hS hpm hlen hidl hids hnp hck hkN
+    intro k fs ps id rest hdrop hB hS hpm hlen hidl hids hnp hck hkN hbm
     obtain ⟨hx, hk, hdrop'⟩ := getSlot_of_drop N k x (xs ++ rest) (by simpa using hdrop)
     obtain ⟨nf, _, hB1, hS1, ok1, len1, idl1, ids1, np1⟩ :=
-      nodeA_safe b0 hsync fs ps id x hB hS hpm hlen hidl hids hnp hk hx.symm hck
-    have h1 := memFacts_nodeA (cfg := cfg) (c := c) (k := k) (p0 := p0) ps id x hpm hids hnp
+      nodeA_safe b0 hsync fs ps id x hB hS hpm hlen hidl hids hnp hk hx.symm hck hbm
+    have h1 := memFacts_nodeA (cfg := cfg) (c := c) (k := k) (p0 := p0) ps id x hpm hids hnp hbm (by have := b0.bm; omega)
     have h2 := ih (k + 1) _ (nodeA cfg ps id x).2.1 (nodeA cfg ps id x).2.2 rest hdrop' hB1 hS1.toI ok1 len1 idl1 ids1 np1
-      (by omega) (by omega)
+      (by omega) (by omega) (Nat.le_trans hbm (nodeA_bm cfg ps id x))
     have hacts : (nodesA cfg ps id (x :: xs)).1 =
         (nodeA cfg ps id x).1 ++ (nodesA cfg (nodeA cfg ps id x).2.1 (nodeA cfg ps id x).2.2 xs).1 := rfl
     have hres : (nodesA cfg ps id (x :: xs)).2 = (nodesA cfg (nodeA cfg ps id x).2.1 (nodeA cfg ps id x).2.2 xs).2 := rfl
